@@ -36,6 +36,38 @@ def contract(target, properties, **kw):
     return deco
 
 
+TRACKED: list = []
+
+
+def track(*items):
+    """register module-level recorders (a list, or an (object, attribute) pair holding a list) whose
+    content is per-path state: it is snapshotted after each path and restored before that path's ensures"""
+    for it in items:
+        if isinstance(it, tuple):
+            if not any(isinstance(t, tuple) and t[0] is it[0] and t[1] == it[1] for t in TRACKED):
+                TRACKED.append(it)
+        elif not any(it is t for t in TRACKED):
+            TRACKED.append(it)
+
+
+def _snap():
+    out = []
+    for it in TRACKED:
+        if isinstance(it, tuple):
+            out.append(list(getattr(it[0], it[1])))
+        else:
+            out.append(list(it))
+    return out
+
+
+def _restore(snap):
+    for it, val in zip(TRACKED, snap):
+        if isinstance(it, tuple):
+            setattr(it[0], it[1], list(val))
+        else:
+            it[:] = val
+
+
 class RealRaise(Exception):
     """An exception raised while the *real* function was running (an outcome, matched against the contract)."""
 
@@ -231,10 +263,36 @@ def _finite_instance(a, N):
     return exp, side
 
 
+def _top_level_apps(exprs):
+    """binder applications that are not under a lambda / quantifier (closed terms: safe to substitute)"""
+    seen, out = set(), []
+
+    def walk(e):
+        if e.get_id() in seen:
+            return
+        seen.add(e.get_id())
+        if z3.is_quantifier(e):
+            return
+        if z3.is_app(e) and e.decl().name() in _BINDERS and e.num_args() >= 2:
+            out.append(e)
+            # its non-lambda arguments may contain further closed applications
+            li = _lam_arg(e)[0]
+            for k in range(e.num_args()):
+                if k != li:
+                    walk(e.arg(k))
+            return
+        for c in e.children():
+            walk(c)
+
+    for e in exprs:
+        walk(e)
+    return out
+
+
 def _bounded_refute(pc, goal, timeout_ms):
     """look for a counter-model among FINITE INSTANCES: every array has N entries (N = 1, 2, 3, or its concrete
-    length), binders are expanded innermost first by substitution so that no lambda is left in the query.  A model
-    of (pc and not goal) there is a genuine counter-model of the obligation."""
+    length); binder applications are expanded outermost first (beta-reducing their lambdas exposes the inner
+    ones as closed terms) until no lambda is left.  A model of (pc and not goal) there is a genuine counter-model."""
     forms = list(pc) + [z3.Not(goal)]
     if not _reduction_apps(forms):
         return None
@@ -242,16 +300,12 @@ def _bounded_refute(pc, goal, timeout_ms):
         fs = list(forms)
         side = []
         ok = True
-        for _ in range(16):
-            apps = _reduction_apps(fs)
+        for _ in range(24):
+            apps = _top_level_apps(fs)
             if not apps:
                 break
-            inner = [a for a in apps if not _reduction_apps([a.arg(_lam_arg(a)[0])])]
-            if not inner:
-                ok = False
-                break
             subs = []
-            for a in inner:
+            for a in apps:
                 r = _finite_instance(a, N)
                 if r is None:
                     ok = False
@@ -260,7 +314,10 @@ def _bounded_refute(pc, goal, timeout_ms):
                 side += r[1]
             if not ok:
                 break
-            fs = [z3.substitute(f, *subs) for f in fs]
+            fs = [z3.simplify(z3.substitute(f, *subs)) for f in fs]
+            if sum(len(f.sexpr()) for f in fs) > 4_000_000:
+                ok = False
+                break
         else:
             ok = False
         if not ok:
@@ -272,7 +329,7 @@ def _bounded_refute(pc, goal, timeout_ms):
         s.set("timeout", min(timeout_ms, 10000))
         s.add(*atom_axioms())
         s.add(*fs)
-        s.add(*side)
+        s.add(*[z3.simplify(x) for x in side])
         if s.check() == z3.sat:
             return N, s.model()
     return None
@@ -340,6 +397,7 @@ def run_contract(cls, tier="quick", cross=False, no_replay=()):
                     return c.call(case)
                 finally:
                     eng.extra["state"] = dict(c.__dict__)
+                    eng.extra["tracked"] = _snap()
 
             paths = eng.explore(thunk, c.expected_exceptions)
         except EngineLimit as e:
@@ -373,6 +431,8 @@ def run_contract(cls, tier="quick", cross=False, no_replay=()):
                 Engine.current = eng  # ensures may create fresh symbols
                 c.__dict__.clear()
                 c.__dict__.update(p.extra.get("state", {}))
+                if "tracked" in p.extra:
+                    _restore(p.extra["tracked"])
                 eng.counter = __import__("itertools").count(10_000_000)
                 for name, f in c.ensures(case, p):
                     by_clause.setdefault(name, []).append((p, f))
